@@ -808,6 +808,14 @@ class Interp:
             if len(rs) == 1 and z3.is_bool(rs[0].ret):
                 st["pc_aux"] += list(rs[0].pc)
                 return z3.And(c.disc(src) == 1, rs[0].ret)
+        if re.search(r"Result::<.*>::map_err::<", raw) or name.endswith("Result::map_err"):
+            # Result::map_err maps the Err payload only: Ok-ness and the Ok payload are preserved (the closure is havocked)
+            src = self.as_u(a0)
+            r = c.fresh(U, "map_err")
+            st["pc_aux"].append(c.disc(r) == c.disc(src))
+            for srt in (z3.BitVecSort(64), z3.BitVecSort(32), U, z3.BoolSort()):
+                st["pc_aux"].append(c.uf("proj_Ok_0", [U], srt)(r) == c.uf("proj_Ok_0", [U], srt)(src))
+            return r
         if name.endswith("Option::ok_or") or re.search(r"Option::<.*>::ok_or$", raw) or name == "Option::ok_or":
             src = self.as_u(a0)
             r = c.fresh(U, "ok_or")
